@@ -144,6 +144,11 @@ type recSpec struct {
 	protos   []string
 	protoNil bool
 	extra    map[string]string // raw JSON values
+
+	// unknown-schema record (stratum unkschema only): served verbatim
+	unknown bool
+	schema  string
+	raw     string // the JSON object the delegate serves (contains Schema and Tag)
 }
 
 // address templates: "%A" ip4, "%6" ip6, "%P" port, "%H" host, "%R" relay peer id
@@ -263,9 +268,29 @@ type obsRec struct {
 	Addrs  []string
 	Protos []string
 	Extra  map[string]string
+
+	Unknown bool   // record of a schema the library does not know
+	Schema  string // its schema
+	Raw     string // its raw JSON, canonicalised (keys sorted), or a description of why it is not JSON
+}
+
+// canonJSON re-encodes a JSON object with sorted keys.
+func canonJSON(b []byte) (string, bool) {
+	var m map[string]any
+	if err := json.Unmarshal(b, &m); err != nil {
+		return fmt.Sprintf("<not a JSON object (%v): %q>", err, b), false
+	}
+	out, err := json.Marshal(m)
+	if err != nil {
+		return "<unmarshalable>", false
+	}
+	return string(out), true
 }
 
 func (o obsRec) String() string {
+	if o.Unknown {
+		return fmt.Sprintf("{unknown(%s) %s}", o.Schema, o.Raw)
+	}
 	var ek []string
 	for k, v := range o.Extra {
 		ek = append(ek, k+"="+v)
@@ -481,6 +506,9 @@ func buildPeerRecord(rs recSpec) *types.PeerRecord {
 }
 
 func buildRecord(rs recSpec) types.Record {
+	if rs.unknown {
+		return &types.UnknownRecord{Schema: rs.schema, Bytes: []byte(rs.raw)}
+	}
 	if !rs.bitswap {
 		return buildPeerRecord(rs)
 	}
@@ -498,7 +526,7 @@ func buildRecord(rs recSpec) types.Record {
 func peersOnly(recs []recSpec) []recSpec {
 	var out []recSpec
 	for _, r := range recs {
-		if !r.bitswap {
+		if !r.bitswap && !r.unknown {
 			out = append(out, r)
 		}
 	}
@@ -611,6 +639,9 @@ func (f *front) set(h http.Handler) { f.cur.Store(&h) }
 // encoded by the harness itself.
 func dumbHandler(recs []recSpec, ndjson bool, nullAddrs bool) http.Handler {
 	enc := func(rs recSpec) []byte {
+		if rs.unknown {
+			return []byte(rs.raw)
+		}
 		m := map[string]any{"ID": peerPool[rs.idx].String()}
 		var as []string
 		for _, a := range rs.addrs {
@@ -875,6 +906,9 @@ func fromRecord(rec types.Record) (obsRec, string) {
 			o.Addrs = append(o.Addrs, a.String())
 		}
 		return o, ""
+	case *types.UnknownRecord:
+		raw, _ := canonJSON(v.Bytes)
+		return obsRec{Unknown: true, Schema: v.Schema, Raw: raw}, ""
 	case nil:
 		return obsRec{}, "nil record"
 	default:
@@ -891,8 +925,12 @@ func decodeWire(raw json.RawMessage) (obsRec, string) {
 	var o obsRec
 	var schema string
 	json.Unmarshal(m["Schema"], &schema)
+	if schema == "bitswap" {
+		return obsRec{}, "wire record has the deprecated bitswap schema (the server converts these)"
+	}
 	if schema != "peer" {
-		return obsRec{}, fmt.Sprintf("wire record has schema %q", schema)
+		c, _ := canonJSON(raw)
+		return obsRec{Unknown: true, Schema: schema, Raw: c}, ""
 	}
 	json.Unmarshal(m["ID"], &o.ID)
 	if a, ok := m["Addrs"]; ok {
@@ -995,7 +1033,7 @@ func rawProbe(endpoint, key string, fe filterExpr, accept string, escape bool) p
 	return pr
 }
 
-func clientProbe(endpoint string, keyIdx int, fe filterExpr, accept string, disableLocal bool) probeResult {
+func clientProbe(endpoint string, keyIdx int, fe filterExpr, accept string, disableLocal bool) (pr probeResult) {
 	opts := []client.Option{}
 	if fe.protoSet {
 		opts = append(opts, client.WithProtocolFilter(append([]string{}, fe.proto...)))
@@ -1018,20 +1056,29 @@ func clientProbe(endpoint string, keyIdx int, fe filterExpr, accept string, disa
 	}
 	ctx, cancel := context.WithTimeout(context.Background(), 60*time.Second) // watchdog only
 	defer cancel()
-	var pr probeResult
-	collect := func(rec types.Record, e error) {
-		if e != nil {
-			if pr.itemErr == "" {
-				pr.itemErr = "item error: " + e.Error()
-			}
-			return
-		}
-		o, es := fromRecord(rec)
-		if es != "" && pr.itemErr == "" {
-			pr.itemErr = es
-		}
-		pr.recs = append(pr.recs, o)
+	// every result is retained as delivered and only looked at after the
+	// stream has been read to its end and the iterator closed
+	type held struct {
+		rec types.Record
+		err error
 	}
+	var all []held
+	collect := func(rec types.Record, e error) { all = append(all, held{rec, e}) }
+	defer func() {
+		for _, h := range all {
+			if h.err != nil {
+				if pr.itemErr == "" {
+					pr.itemErr = "item error: " + h.err.Error()
+				}
+				continue
+			}
+			o, es := fromRecord(h.rec)
+			if es != "" && pr.itemErr == "" {
+				pr.itemErr = es
+			}
+			pr.recs = append(pr.recs, o)
+		}
+	}()
 	if endpoint == "providers" {
 		it, err := cl.FindProviders(ctx, cidPool[keyIdx%len(cidPool)])
 		if err != nil {
@@ -1087,7 +1134,8 @@ func eqExtra(a, b map[string]string) bool {
 }
 
 func eqRec(a, b obsRec) bool {
-	return a.ID == b.ID && eqStrs(a.Addrs, b.Addrs) && eqStrs(a.Protos, b.Protos) && eqExtra(a.Extra, b.Extra)
+	return a.ID == b.ID && eqStrs(a.Addrs, b.Addrs) && eqStrs(a.Protos, b.Protos) && eqExtra(a.Extra, b.Extra) &&
+		a.Unknown == b.Unknown && a.Schema == b.Schema && a.Raw == b.Raw
 }
 
 func eqList(a, b []obsRec) bool {
@@ -1768,11 +1816,12 @@ func ipnsCase(k *vlib.Case) {
 func main() { vlib.Run("C42", run) }
 
 func run(c *vlib.Ctx) {
-	c.Rule("filters/case: per case 0-30 peer/bitswap records (0-6 addrs from 14 multiaddr templates, 0-3 protocols incl. mixed case, extra fields, repeated peers), server limits 0..40 for JSON and NDJSON, 4-8 GET requests {providers,peers} x {server-raw, client-nolocal, client-local, client-dumb} x Accept variants with filter-addrs (positive, !negated, unknown, unregistered names) and filter-protocols (names, unknown, client default); stratum `case` upper-cases exactly one kind of filter term; ipns: histories of 6-14 PUT(valid | 10 kinds of invalid)/GET/hostile-GET over 2-3 keys of {ed25519, rsa, secp256k1, ecdsa}; distinct = FNV of config+records+requests; non-trivial (filters) = the case has a request whose reference drops a record, one that trims an address list, one capped by the limit, and both encodings; (ipns) = an accepted PUT, a rejected PUT and a byte-identical GET")
+	c.Rule("filters/case: per case 0-30 peer/bitswap records (0-6 addrs from 14 multiaddr templates, 0-3 protocols incl. mixed case, extra fields, repeated peers), server limits 0..40 for JSON and NDJSON, 4-8 GET requests {providers,peers} x {server-raw, client-nolocal, client-local, client-dumb} x Accept variants with filter-addrs (positive, !negated, unknown, unregistered names) and filter-protocols (names, unknown, client default); stratum `case` upper-cases exactly one kind of filter term; ipns: histories of 6-14 PUT(valid | 10 kinds of invalid)/GET/hostile-GET over 2-3 keys of {ed25519, rsa, secp256k1, ecdsa}; unkschema: /providers lists with ~1/3 unknown-schema records (arbitrary extra fields, long values) interleaved with peer/bitswap records, each request fetched as JSON and as NDJSON with the same limit through one of the 4 points, all results retained until the stream is read and closed; distinct = FNV of config+records+requests; non-trivial (filters) = the case has a request whose reference drops a record, one that trims an address list, one capped by the limit, and both encodings; (unkschema) = >= 2 unknown records served, an NDJSON response delivering an unknown record followed/preceded by other records, and an identical JSON/NDJSON pair; (ipns) = an accepted PUT, a rejected PUT and a byte-identical GET")
 	initPools()
 	fr = newFront()
 	defer fr.srv.Close()
 	c.Cases("filters", c.N(300, 9000), filterCase(false))
 	c.Cases("case", c.N(60, 1500), filterCase(true))
+	c.Cases("unkschema", c.N(120, 3000), unknownCase)
 	c.Cases("ipns", c.N(80, 2000), ipnsCase)
 }
